@@ -5,34 +5,9 @@
 (* arity(f_1) operands, pushes its results in front of the remaining operands,    *)
 (* and continues with f_2.  Combinators permute / duplicate the stack.            *)
 (* Values are abstract terms, so the laws hold for every interpretation.          *)
-EXTENDS Naturals, Sequences, FiniteSets, TLC
+EXTENDS StackMachine
 
 CONSTANTS MaxLen
-Sig == {[name |-> "u1", ar |-> 1, out |-> 1], [name |-> "u2", ar |-> 1, out |-> 1], [name |-> "b", ar |-> 2, out |-> 1], [name |-> "t", ar |-> 3, out |-> 1],
-        [name |-> "swap", ar |-> 2, out |-> 2], [name |-> "dup", ar |-> 1, out |-> 2], [name |-> "dig2", ar |-> 3, out |-> 3], [name |-> "bury2", ar |-> 3, out |-> 3]}
-L(n) == [f |-> n, in |-> <<>>]      \* leaf term
-Stuck == <<L("stuck")>>
-
-\* one functor applied to the front of the stack
-ApplyOne(f, st) ==
-    LET args == SubSeq(st, 1, f.ar)  rest == SubSeq(st, f.ar + 1, Len(st)) IN
-    CASE f.name = "swap" -> <<args[2], args[1]>> \o rest
-      [] f.name = "dup" -> <<args[1], args[1]>> \o rest
-      [] f.name = "dig2" -> <<args[3], args[1], args[2]>> \o rest
-      [] f.name = "bury2" -> <<args[2], args[3], args[1]>> \o rest
-      [] OTHER -> <<[f |-> f.name, in |-> args]>> \o rest
-RECURSIVE Run(_, _)
-Run(comp, st) ==      \* comp = <<f_n, ..., f_1>> : the last element is applied first
-    IF comp = <<>> THEN st
-    ELSE LET f == comp[Len(comp)] IN
-         IF Len(st) < f.ar THEN Stuck ELSE Run(SubSeq(comp, 1, Len(comp) - 1), ApplyOne(f, st))
-\* arity and outputs of a composition
-RECURSIVE Need(_, _)
-Need(comp, have) == IF comp = <<>> THEN 0
-                    ELSE LET f == comp[Len(comp)]  missing == IF f.ar > have THEN f.ar - have ELSE 0
-                         IN missing + Need(SubSeq(comp, 1, Len(comp) - 1), have + missing - f.ar + f.out)
-Arity(comp) == Need(comp, 0)
-
 VARIABLES comp
 Init == comp \in UNION {[1..n -> Sig] : n \in 1..MaxLen}
 Next == UNCHANGED comp
